@@ -1,153 +1,143 @@
-// node (V8) "instantiate and call" batch runner for the /verif checks (client: engine/v8x).
-// Separate from runner.js (validate/inspect only), which is left untouched.
+// node (V8) execution server for the /verif checks C31 and C03.
+// One JSON request per line on stdin, one JSON response per line on stdout.
 //
-// Protocol: one JSON request per line on stdin, one JSON response per line on stdout.
-//   request : {"id": <any>, "jobs": [job, ...]}
-//   job     : {"wasm": "<base64>",
-//              "imports": [imp, ...],          // what to supply for the module's imports
-//              "calls": [{"name": "<export>", "args": ["5", "7n", "f:3ff8000000000000"]}, ...],
-//              "maxTrace": 4096}               // cap on recorded host calls (default 4096)
-//   imp     : {"module","name","kind":"func",  "results": ["i32"|"i64"|"f32"|"f64", ...]}
-//             {"module","name","kind":"memory","min": n, "max": n|null}
-//             {"module","name","kind":"table", "min": n, "max": n|null}
-//             {"module","name","kind":"global","type": "i32"|..., "mut": bool, "value": "<arg>"}
-//     A func import is a recording stub: every call appends "<module>.<name>(<args>)" to the
-//     current trace and returns zeros of the declared result types. Imports of the module that are
-//     not listed get a default (func: recording stub without results; others: instantiation fails).
-//   args    : decimal string = Number (i32 / f32 / f64 parameter), decimal + "n" = BigInt (i64),
-//             "f:<16 hex digits>" = the double with these bits.
-//   response: {"id": <same>, "res": [res, ...]}
-//   res     : {"valid": bool, "error": "<compile error>",
-//              "imports": [{"module","name","kind"}], "exports": [{"name","kind"}],
-//              "instantiated": bool, "instError": "<link error or start trap>",
-//              "startTrace": ["env.imp(1,2)", ...],   // host calls made during instantiation (start function)
-//              "calls": [{"r": "<v1>,<v2>" | "trap:<message>" | "missing", "t": [host calls...]}, ...]}
-//     Result values: i32 as signed decimal, i64 as signed decimal, floats as "f:<bits of the double>",
-//     no result = "". A missing export gives "missing", a non-function export "notfunc:<kind>".
+// request : {"id": n, "wasm": "<base64>", "tramp": "<base64>", "mem": bool,
+//            "sigs":    {"<export>": {"p": "iI..", "r": "iI.."}},     (trampoline types: i = i32, I = i64)
+//            "imports": [{"module","name","p":"iIfF","r":"iIfF"}],     (recording stubs)
+//            "calls":   [{"f": "<export>", "a": ["<decimal bits>", ...], "fresh": bool, "reset": bool}]}
+// response: {"id": n, "error": "...", "out": [{"t": "<trap class>", "e": "<message>", "r": ["<decimal bits>"],
+//            "m": "<pages>:<hash>", "h": "<host-call trace>"}]}
+//
+// The module under test is instantiated with recording stubs for its imports. Calls go through
+// the trampoline module "tramp", which imports the module's exports (wasm-to-wasm, no JS value
+// conversion) and takes / returns every float as the integer with the same bits, so NaN payloads
+// survive. After every call the whole linear memory is hashed.
 'use strict';
 const readline = require('readline');
 
-function parseArg(s) {
-  if (typeof s !== 'string') return s;
-  if (s.startsWith('f:')) {
-    const b = Buffer.alloc(8);
-    b.writeBigUInt64BE(BigInt('0x' + s.slice(2)));
-    return b.readDoubleBE(0);
+const dv = new DataView(new ArrayBuffer(8));
+function f32bits(x) { dv.setFloat32(0, x, true); return dv.getUint32(0, true); }
+function f64bits(x) { dv.setFloat64(0, x, true); return dv.getBigUint64(0, true); }
+
+function hex8(x) { return ('00000000' + (x >>> 0).toString(16)).slice(-8); }
+
+function memHash(buffer) {
+  const w = new Uint32Array(buffer);
+  let h1 = 0x811c9dc5 | 0, h2 = 0x9e3779b9 | 0;
+  for (let i = 0; i < w.length; i++) {
+    const x = w[i] | 0;
+    h1 = Math.imul(h1 ^ x, 16777619);
+    h2 = Math.imul((h2 + x) | 0, 0x85ebca6b | 0);
+    h2 ^= h2 >>> 13;
   }
-  if (s.endsWith('n')) return BigInt(s.slice(0, -1));
-  return Number(s);
+  return (buffer.byteLength / 65536) + ':' + hex8(h1) + hex8(h2);
 }
 
-function showVal(v) {
-  if (typeof v === 'bigint') return v.toString();
-  if (typeof v === 'number') {
-    if (Number.isInteger(v) && !Object.is(v, -0) && Math.abs(v) <= 0xffffffff) return String(v);
-    const b = Buffer.alloc(8);
-    b.writeDoubleBE(v);
-    return 'f:' + b.toString('hex');
+let patBuf = new Uint8Array(0);
+function fillPattern(buffer) {
+  if (patBuf.length < buffer.byteLength) {
+    patBuf = new Uint8Array(buffer.byteLength);
+    for (let i = 0; i < patBuf.length; i++) patBuf[i] = (i * 73 + (i >>> 8) * 29 + 0x4f) & 0xff;
   }
-  if (v === undefined) return '';
-  if (v === null) return 'null';
-  return typeof v;
+  new Uint8Array(buffer).set(patBuf.subarray(0, buffer.byteLength));
 }
 
-function showResult(v) {
-  if (Array.isArray(v)) return v.map(showVal).join(',');
-  return showVal(v);
+function classify(e) {
+  const msg = String(e && e.message || e);
+  if (e instanceof RangeError) return ['stack-exhaustion', msg];
+  if (e instanceof WebAssembly.RuntimeError) {
+    if (/divide by zero|remainder by zero/.test(msg)) return ['integer-divide-by-zero', msg];
+    if (/unrepresentable in integer range/.test(msg)) return ['integer-result-unrepresentable', msg];
+    if (/divide result unrepresentable/.test(msg)) return ['integer-result-unrepresentable', msg];
+    if (/memory access out of bounds|data segment/.test(msg)) return ['out-of-bounds-memory-access', msg];
+    if (/unreachable/.test(msg)) return ['unreachable', msg];
+    if (/signature mismatch|null function|table index is out of bounds|table access out of bounds/.test(msg)) return ['indirect-call(null/type-mismatch/out-of-range)', msg];
+    return ['other', msg];
+  }
+  return ['other', 'js: ' + msg];
 }
 
-function zeroOf(t) {
-  return t === 'i64' ? 0n : 0;
-}
-
-function runJob(job) {
-  const out = { valid: false, instantiated: false };
-  let buf;
-  try {
-    buf = Buffer.from(job.wasm, 'base64');
-    out.valid = WebAssembly.validate(buf);
-  } catch (e) {
-    out.error = 'validate threw: ' + String(e);
-    return out;
-  }
-  let mod;
-  try {
-    mod = new WebAssembly.Module(buf);
-  } catch (e) {
-    out.error = String(e && e.message || e);
-    out.valid = false;
-    return out;
-  }
-  out.imports = WebAssembly.Module.imports(mod).map(x => ({ module: x.module, name: x.name, kind: x.kind }));
-  out.exports = WebAssembly.Module.exports(mod).map(x => ({ name: x.name, kind: x.kind }));
-
-  const maxTrace = job.maxTrace || 4096;
-  let trace = [];
-  const stub = (label, results) => (...args) => {
-    if (trace.length < maxTrace) trace.push(label + '(' + args.map(showVal).join(',') + ')');
-    else if (trace.length === maxTrace) trace.push('...');
-    if (!results || results.length === 0) return undefined;
-    if (results.length === 1) return zeroOf(results[0]);
-    return results.map(zeroOf);
-  };
-  const spec = new Map();
-  for (const im of (job.imports || [])) spec.set(im.module + '\u0000' + im.name, im);
+function run(req) {
+  const wasm = Buffer.from(req.wasm, 'base64');
+  const tramp = Buffer.from(req.tramp, 'base64');
+  const module = new WebAssembly.Module(wasm);
+  const tmodule = new WebAssembly.Module(tramp);
+  const st = { n: 0, trace: [] };
   const importObj = {};
-  try {
-    for (const im of out.imports) {
-      const s = spec.get(im.module + '\u0000' + im.name);
-      let v;
-      if (im.kind === 'function') {
-        v = stub(im.module + '.' + im.name, s && s.results);
-      } else if (!s) {
-        continue; // not supplied: instantiation reports the link error
-      } else if (im.kind === 'memory') {
-        const d = { initial: s.min };
-        if (s.max !== null && s.max !== undefined) d.maximum = s.max;
-        v = new WebAssembly.Memory(d);
-      } else if (im.kind === 'table') {
-        const d = { initial: s.min, element: 'anyfunc' };
-        if (s.max !== null && s.max !== undefined) d.maximum = s.max;
-        v = new WebAssembly.Table(d);
-      } else if (im.kind === 'global') {
-        v = new WebAssembly.Global({ value: s.type, mutable: !!s.mut }, parseArg(s.value || (s.type === 'i64' ? '0n' : '0')));
+  (req.imports || []).forEach((im, k) => {
+    if (!importObj[im.module]) importObj[im.module] = {};
+    importObj[im.module][im.name] = (...args) => {
+      let e = im.module + '.' + im.name + '(';
+      for (let i = 0; i < im.p.length; i++) {
+        if (i > 0) e += ',';
+        const a = args[i];
+        switch (im.p[i]) {
+          case 'i': e += (a >>> 0).toString(); break;
+          case 'I': e += BigInt.asUintN(64, a).toString(); break;
+          case 'f': e += Number.isNaN(a) ? 'nan' : f32bits(a).toString(); break;
+          case 'F': e += Number.isNaN(a) ? 'nan' : f64bits(a).toString(); break;
+        }
       }
-      if (!importObj[im.module]) importObj[im.module] = {};
-      importObj[im.module][im.name] = v;
-    }
-  } catch (e) {
-    out.instError = 'import setup: ' + String(e && e.message || e);
-    return out;
-  }
-
-  let inst;
-  try {
-    inst = new WebAssembly.Instance(mod, importObj);
-    out.instantiated = true;
-  } catch (e) {
-    out.instError = String(e && e.message || e);
-    out.startTrace = trace;
-    return out;
-  }
-  out.startTrace = trace;
-
-  out.calls = [];
-  for (const c of (job.calls || [])) {
-    trace = [];
-    const f = inst.exports[c.name];
-    let r;
-    if (f === undefined) {
-      r = 'missing';
-    } else if (typeof f !== 'function') {
-      r = 'notfunc:' + Object.prototype.toString.call(f);
-    } else {
+      e += ')';
+      const v = 100 * (k + 1) + (st.n % 50);
+      let ret;
+      if (im.r.length > 0) {
+        switch (im.r[0]) {
+          case 'i': ret = v; e += '=' + v; break;
+          case 'I': ret = BigInt(v); e += '=' + v; break;
+          case 'f': ret = v; e += '=' + f32bits(v).toString(); break;
+          case 'F': ret = v; e += '=' + f64bits(v).toString(); break;
+        }
+      }
+      st.n++;
+      if (st.trace.length < 64) st.trace.push(e);
+      return ret;
+    };
+  });
+  let inst = null, tinst = null, instErr = null;
+  const out = [];
+  for (const c of req.calls) {
+    const o = {};
+    out.push(o);
+    if (c.fresh || inst === null) {
+      st.n = 0; st.trace = [];
+      inst = null; tinst = null; instErr = null;
       try {
-        r = showResult(f(...(c.args || []).map(parseArg)));
+        inst = new WebAssembly.Instance(module, importObj);
+        tinst = new WebAssembly.Instance(tmodule, { m: inst.exports });
       } catch (e) {
-        r = 'trap:' + String(e && e.message || e);
+        inst = null;
+        instErr = String(e && e.message || e);
       }
     }
-    out.calls.push({ r, t: trace });
+    if (inst === null) { o.t = 'instantiation-failed'; o.e = instErr; continue; }
+    const mem = req.mem ? inst.exports.memory : null;
+    if (c.reset && mem) fillPattern(mem.buffer);
+    const fn = tinst.exports[c.f];
+    const sig = req.sigs[c.f];
+    if (typeof fn !== 'function' || !sig) { o.t = 'export-missing'; continue; }
+    const args = [];
+    for (let i = 0; i < sig.p.length; i++) {
+      const b = BigInt(c.a[i]);
+      if (sig.p[i] === 'i') args.push(Number(BigInt.asIntN(32, b)));
+      else args.push(BigInt.asIntN(64, b));
+    }
+    st.trace = [];
+    try {
+      let res = fn(...args);
+      if (sig.r.length === 0) res = [];
+      else if (sig.r.length === 1) res = [res];
+      o.r = [];
+      for (let i = 0; i < sig.r.length; i++) {
+        if (sig.r[i] === 'i') o.r.push((res[i] >>> 0).toString());
+        else o.r.push(BigInt.asUintN(64, res[i]).toString());
+      }
+    } catch (e) {
+      const [cls, msg] = classify(e);
+      o.t = cls; o.e = msg.slice(0, 160);
+    }
+    if (mem) o.m = memHash(mem.buffer);
+    if (st.trace.length) o.h = st.trace.join(';');
   }
   return out;
 }
@@ -161,13 +151,12 @@ rl.on('line', (line) => {
     process.stdout.write(JSON.stringify({ id: null, error: 'bad request: ' + String(e) }) + '\n');
     return;
   }
-  let res;
+  let resp;
   try {
-    res = (req.jobs || []).map(runJob);
+    resp = { id: req.id, out: run(req) };
   } catch (e) {
-    process.stdout.write(JSON.stringify({ id: req.id, error: 'runner failure: ' + String(e && e.stack || e) }) + '\n');
-    return;
+    resp = { id: req.id, error: String(e && e.message || e) };
   }
-  process.stdout.write(JSON.stringify({ id: req.id, res }) + '\n');
+  process.stdout.write(JSON.stringify(resp) + '\n');
 });
 rl.on('close', () => process.exit(0));
